@@ -234,4 +234,51 @@ theorem cost_perm_measurements (norm : α) (rows : List (List α)) (cols cols' :
 
 end cost
 
+/-! ### The cost composes from the single-trajectory costs (over ℝ) -/
+section composition
+
+theorem cellErr_nonneg (p : ℝ) (rows data : List (List ℝ)) (i idx t : Nat) : 0 ≤ cellErr p rows data i idx t := by
+  unfold cellErr
+  exact Real.rpow_nonneg (abs_nonneg _) p
+
+theorem trajTerm_nonneg (sim : List ℝ → List ℝ → List ℝ → List (List ℝ)) (p : ℝ) (measIdx : List Nat)
+    (base : List ℝ) (tr : Traj ℝ) : 0 ≤ trajTerm sim p measIdx base tr := by
+  unfold trajTerm
+  rw [trajError_eq, zero_add]
+  apply List.sum_nonneg
+  intro x hx
+  obtain ⟨i, _, rfl⟩ := List.mem_map.mp hx
+  apply List.sum_nonneg
+  intro y hy
+  obtain ⟨t, _, rfl⟩ := List.mem_map.mp hy
+  exact cellErr_nonneg _ _ _ _ _ _
+
+/-- **the error of a data set is the sum of the errors of its trajectories taken alone**: for a norm order `p > 0`,
+`(−LL(trajectories))^p = Σ_n (−LL([trajectory n]))^p`, every trajectory being simulated from the same evaluation
+parameters `base` (plus its own condition).  This is the form of the statement the harness checks on models for which no
+independent reference trajectory exists. -/
+theorem logLikelihood_composes (sim : List ℝ → List ℝ → List ℝ → List (List ℝ)) (p : ℝ) (hp : 0 < p) (measIdx : List Nat)
+    (base : List ℝ) (trajs : List (Traj ℝ)) :
+    Transc.pow (-(logLikelihood sim p measIdx base trajs)) p
+      = (trajs.map (fun tr => Transc.pow (-(logLikelihood sim p measIdx base [tr])) p)).sum := by
+  have key : ∀ x : ℝ, 0 ≤ x → Transc.pow (Transc.pow x (1 / p)) p = x := by
+    intro x hx
+    show Real.rpow (Real.rpow x (1 / p)) p = x
+    rw [one_div]
+    exact Real.rpow_inv_rpow hx (ne_of_gt hp)
+  have hsum : 0 ≤ (trajs.map (trajTerm sim p measIdx base)).sum := by
+    apply List.sum_nonneg
+    intro x hx
+    obtain ⟨tr, _, rfl⟩ := List.mem_map.mp hx
+    exact trajTerm_nonneg sim p measIdx base tr
+  rw [logLikelihood_formula, neg_neg, key _ hsum]
+  congr 1
+  apply List.map_congr_left
+  intro tr _
+  rw [logLikelihood_formula, neg_neg]
+  simp only [List.map_cons, List.map_nil, List.sum_cons, List.sum_nil, add_zero]
+  exact (key _ (trajTerm_nonneg sim p measIdx base tr)).symm
+
+end composition
+
 end Bioscrape.C15
